@@ -333,8 +333,10 @@ def run(tier, seed):
                        probe=True, sig=csig)
             info['%s win=%d' % (cfg[1], cfg[2])] = {'states_per_level': r['levels'], 'depth_completed': r['depth_completed'],
                                                    'frontier_emptied': r['frontier_emptied'], 'roots': len(roots)}
-            for dig, h in list(r['seen'].items())[:2]:
-                acc.sample({'history': h})
+            seen_items = list(r['seen'].items())
+            for dig, h in seen_items[len(seen_items) // 2:len(seen_items) // 2 + 1]:
+                acc.sample({'configuration': list(cfg[1:]), 'history': h, 'note': 'one of the distinct states (history of symbols: '
+                            "('f', can id, data hex) = frame from the bus, ('send', kind) = local send_pgn, ('gap', seconds))"})
             for dig in r['seen']:
                 nontrivial.add(hash(dig))
     except RuntimeError as e:
